@@ -10,6 +10,12 @@ def refPos : PRef → Option Pos
   | .at p => some p
   | _ => Option.none
 
+/-- the temporary one-element "hidden list" `_find` builds around a single value: a tuple in the implementation
+(fix C03-e), so that nothing can be stored into it -/
+def isWrap : PRef → Bool
+  | .wrap _ => true
+  | _ => false
+
 def isPlainDict : Val → Bool
   | .dict .plain _ => true
   | _ => false
@@ -234,6 +240,8 @@ def addStep (root : Val) (par : PRef) (ni : Option Str) (t : Str) : PyM (Val × 
             else .error .UnboundLocalError
           | _ => .error .ValueError
         else
+          -- nothing is added to a hidden list (a tuple: `isinstance(parent_node, list)` fails, fix C03-e)
+          if isWrap par then .error .SyntaxError else
           match n0eval cis with
           | .error e => .error e
           | .ok ev =>
@@ -357,6 +365,39 @@ def storeAt (root : Val) (par : PRef) (ni : Option Str) (v : Val) : PyM Val :=
           | _ => .error .TypeError
       | some _ => .error .TypeError
 
+/-- `while isinstance(real_parent_node, tuple)` of `__setitem__`: the text `found` is resolved again until the parent
+reported is a node of the structure -/
+def realPlace (fuel : Nat) (root : Val) : Nat → Res → PyM Res
+  | 0, _ => .error .OutOfFuel
+  | k + 1, r =>
+    if isWrap r.parent then
+      match findD fuel root [] false true (tokenize r.found) (.at []) true slash with
+      | .error e => .error e
+      | .ok (_, r') => realPlace fuel root k r'
+    else .ok r
+
+/-- the hidden-list part of `__setitem__` (fix C03-e).  `_find` reports a single value that was addressed by an index
+as an item of the temporary tuple `(value,)`.  Item `[0]` (found) is the value itself: `found` is resolved again to get
+the place where it really is.  Item `[1]` (not found) is the next item of that list — for the value of a key the same
+miss as `name[new()]`, which `_add` honours by making the value the first item of a new list.  Everything else stays
+as `_find` reported it (and is refused by `_add`). -/
+def hiddenPlace (fuel : Nat) (root : Val) (r : Res) : PyM Res :=
+  let nf := match r.notFound with | some l => l | Option.none => []
+  if isWrap r.parent && (nf.isEmpty || r.nameIdx = some (bracket ['1'])) then
+    match findD fuel root [] false true (tokenize r.found) (.at []) true slash with
+    | .error e => .error e
+    | .ok (_, r1) =>
+      if nf.isEmpty then
+        match realPlace fuel root fuel r1 with
+        | .error e => .error e
+        | .ok real => .ok { r with parent := real.parent, nameIdx := real.nameIdx }
+      else
+        match valOf root r1.parent, r1.nameIdx with
+        | some (.dict ..), some k =>
+          .ok { r with parent := r1.parent, nameIdx := Option.none, notFound := some ((k ++ bracket sNew) :: nf.drop 1) }
+        | _, _ => .ok r
+  else .ok r
+
 /-- `n0dict__.__setitem__(xpath, new_value)` on a dict root: the tree after the call and
 whether it raised -/
 def setItem (fuel : Nat) (root : Val) (xp : Str) (v : Val) : Val × PyM Unit :=
@@ -369,6 +410,9 @@ def setItem (fuel : Nat) (root : Val) (xp : Str) (v : Val) : Val × PyM Unit :=
       match findD fuel root [] false true (tokenize xp) (.at []) true slash with
       | .error e => (root, .error e)
       | .ok (root, r) =>
+        match hiddenPlace fuel root r with
+        | .error e => (root, .error e)
+        | .ok r =>
         let nf := match r.notFound with | some l => l | Option.none => []
         if !nf.isEmpty then
           -- a refused creation takes back what `_add` had inserted (fix C03-a): the tree is the one the search left
@@ -387,6 +431,8 @@ def setItem (fuel : Nat) (root : Val) (xp : Str) (v : Val) : Val × PyM Unit :=
 
 /-- `del parent_node[node_name_index]` of `delete` -/
 def delThrough (root : Val) (par : PRef) (ni : Option Str) : PyM Val :=
+  -- a hidden list is a tuple (fix C03-e): `del parent_node[...]` is a TypeError
+  if isWrap par then .error .TypeError else
   match valOf root par with
   | Option.none => .error .Unsupported
   | some (.list _ xs) =>
@@ -411,6 +457,19 @@ def delThrough (root : Val) (par : PRef) (ni : Option Str) : PyM Val :=
       else .error .KeyError
   | some _ => .error .TypeError
 
+/-- the hidden-list part of `delete` (fix C03-e).  An item `[0]` of a hidden list that was *found* is the single value
+itself.  Written as a step of its own (`tok` = `[0]`) it is passed over — `none`: the shorter path, which the loop looks at
+next, leads to the same value; attached to a name (`name[0]`) the text `found` is resolved once more to get the place
+where the value really is. -/
+def delPlace (fuel : Nat) (root : Val) (tok : Str) (r : Res) : PyM (Option Res) :=
+  if isWrap r.parent && r.isFound then
+    if (match splitNameIndex tok with | .ok (name, _) => name.isEmpty | .error _ => false) then .ok Option.none
+    else
+      match findD fuel root [] false true (tokenize r.found) (.at []) true slash with
+      | .error e => .error e
+      | .ok (_, r') => .ok (some r')
+  else .ok (some r)
+
 def isEmptyDict : Val → Bool
   | .dict _ [] => true
   | _ => false
@@ -426,8 +485,12 @@ def deleteLoop (fuel : Nat) (toks : List Str) (recursively : Bool) : Val → Nat
     match findD fuel root [] false true (toks.take (k + 1)) (.at []) true slash with
     | .error e => (root, .error e)
     | .ok (root, r) =>
+      match delPlace fuel root (toks.getD k []) r with
+      | .error e => (root, .error e)
+      | .ok Option.none => deleteLoop fuel toks recursively root k first
+      | .ok (some r') =>
       if first || (recursively && isEmptyDict r.value) then
-        match delThrough root r.parent r.nameIdx with
+        match delThrough root r'.parent r'.nameIdx with
         | .error e => (root, .error e)
         | .ok root => deleteLoop fuel toks recursively root k false
       else deleteLoop fuel toks recursively root k false
